@@ -308,6 +308,10 @@ func (a *Act) contractCall(ctx *blockCtx, spec *FuncSpec, key string, pnames []s
 			}
 		}
 	}
+	// crash inside the callee: durable state as described by its crashensures
+	if a.spec != nil && a.depth == 0 && len(a.spec.CrashInv) > 0 && len(spec.Modifies) > 0 {
+		a.crashInside(ctx, spec, key, vars, pos)
+	}
 	// havoc modifies
 	post := ctx.st
 	allVars := map[string]Val{}
@@ -343,7 +347,54 @@ func (a *Act) contractCall(ctx *blockCtx, spec *FuncSpec, key string, pnames []s
 		t := a.trClauseEnv(envPost, c, "ensures of "+key)
 		g.fact(implies(ctx.reach, t))
 	}
+	if a.spec != nil && a.depth == 0 && len(spec.Modifies) > 0 {
+		a.crashPoint(ctx, "after:"+shortName(key), pos)
+	}
 	return res, tup
+}
+
+// crashPoint: the crash invariant of the function under verification holds in the current state.
+func (a *Act) crashPoint(ctx *blockCtx, where string, pos token.Pos) {
+	if a.spec == nil || len(a.spec.CrashInv) == 0 {
+		return
+	}
+	env := a.env(ctx.st, nil, nil)
+	for k, c := range a.spec.CrashInv {
+		t := a.trClause(env, c, "crashinv")
+		a.g.oblige("crash", fmt.Sprintf("%s/crashinv%d/%s", a.key, k, where), ctx.reach, t, c.Src, a.g.pos(pos), a.clauseProps(c))
+	}
+}
+
+// crashInside: the process dies while the callee is running: its modifies set is arbitrary
+// except for what its crashensures clauses promise; the crash invariant must still hold.
+func (a *Act) crashInside(ctx *blockCtx, spec *FuncSpec, key string, vars map[string]Val, pos token.Pos) {
+	g := a.g
+	pre := ctx.st.clone()
+	mid := ctx.st.clone()
+	envPre := &Env{g: g, vars: vars, st: pre, old: pre, pkg: spec.Pkg}
+	for _, m := range spec.Modifies {
+		hv, obj, err := envPre.resolveMod(m)
+		if err != nil {
+			continue
+		}
+		s := g.w.heapVars[hv]
+		if obj == "" {
+			mid[hv] = g.fresh(hv+"_crash", s)
+		} else {
+			_, es := splitArraySort(s)
+			mid[hv] = "(store " + g.stateGet(mid, hv) + " " + obj + " " + g.fresh(hv+"_crashat", es) + ")"
+		}
+	}
+	envMid := &Env{g: g, vars: vars, st: mid, old: pre, pkg: spec.Pkg}
+	var assumed []string
+	for _, c := range spec.CrashEns {
+		assumed = append(assumed, a.trClauseEnv(envMid, c, "crashensures of "+key))
+	}
+	env := a.env(mid, nil, nil)
+	for k, c := range a.spec.CrashInv {
+		t := a.trClause(env, c, "crashinv")
+		g.oblige("crash", fmt.Sprintf("%s/crashinv%d/inside:%s", a.key, k, shortName(key)), and(ctx.reach, and(assumed...)), t, c.Src+"   [process dies inside "+key+"]", g.pos(pos), a.clauseProps(c))
+	}
 }
 
 func (a *Act) callProps(c Clause, spec *FuncSpec) []string {
@@ -674,6 +725,9 @@ func (a *Act) anchors(ctx *blockCtx, callee string, n int, after bool, b *ssa.Ba
 		}
 		for _, gu := range an.Ghost {
 			a.ghostAssign(ctx, env, gu)
+		}
+		if len(an.Ghost) > 0 && a.depth == 0 {
+			a.crashPoint(ctx, fmt.Sprintf("ghost@%s#%d", callee, n), token.NoPos)
 		}
 	}
 }
